@@ -555,13 +555,22 @@ Definition reg_name (r : registration) : string :=
 Definition registered_sig (r : registration) : msig :=
   mkSig (reg_name r) (s_params (r_sig r)) (s_ret (r_sig r)).
 
-(* what Router.add_method_handler records for the contract: meth = method_call.method_spec() *)
+(* what Router.add_method_handler records for the contract:
+     meth = method_call.method_spec()
+     if overriding_name is not None: meth.name = overriding_name          (since /repo 330bd50) *)
 Record method_spec : Type := mkSpec { ms_name : string; ms_args : list string; ms_returns : string }.
 
-(* ABIReturnSubroutine.method_spec(): self.name() — NOT the overriding name —, str(type_spec) of every
-   argument, str(type_of()) *)
+(* ABIReturnSubroutine.method_spec(): self.name(), str(type_spec) of every argument, str(type_of()) *)
+Definition own_spec (s : msig) : method_spec :=
+  mkSpec (s_name s) (map py_str (s_params s)) (ret_str py_str (s_ret s)).
+
+(* the recorded entry: the method spec with the name replaced by the overriding name, if one was given *)
 Definition spec_of (r : registration) : method_spec :=
-  mkSpec (s_name (r_sig r)) (map py_str (s_params (r_sig r))) (ret_str py_str (s_ret (r_sig r))).
+  let m := own_spec (r_sig r) in
+  match r_override r with
+  | Some n => mkSpec n (ms_args m) (ms_returns m)
+  | None => m
+  end.
 
 (* algosdk Method.get_signature(): name(args)returns *)
 Definition spec_sig_str (m : method_spec) : string :=
@@ -582,10 +591,6 @@ Section Selectors.
   Definition contract_selectors (registered : list registration) : list bytes :=
     map (fun m => selector_of_str (spec_sig_str m)) (contract_methods registered).
 End Selectors.
-
-(* a registration whose two names coincide (no overriding name, or the subroutine's own name) *)
-Definition same_name (r : registration) : bool :=
-  match r_override r with None => true | Some n => String.eqb n (s_name (r_sig r)) end.
 
 (* ------------------------------------------------------------------------------------------ *)
 (* SPEC: what "parameter bound to what the caller passed" means (used by the theorem statements) *)
